@@ -304,6 +304,12 @@ class HttpProtocolHandler(BaseTcpServerHandler[HttpClientConnection]):
         # Invoke plugin.on_request_complete
         output = self.plugin.on_request_complete()
         if isinstance(output, bool):
+            if output is False and self.request.buffer is not None:
+                # Bytes received along with the first request but after
+                # its end (next pipelined request, early tunnel data)
+                # belong to the plugin, like any later client data.
+                remainder, self.request.buffer = self.request.buffer, None
+                self.plugin.on_client_data(remainder)
             return output
         assert isinstance(output, ssl.SSLSocket)
         logger.debug(
